@@ -87,6 +87,10 @@ CONFIG = {
         "C13.multi:nexus_iterator_keeps_ntax_of_earlier_source of its own (repaired by the fix: commit on branch wt_c13)",
         "two reads of one text within one process (fresh namespace, a few hundred unrelated Annotation objects allocated "
         "and released in another order in between) must give identical, order-sensitive observations",
+        "documents holding a quoted token that is one structural character (';' ',' ')' ... as taxon or internal label; "
+        "lib/docs.py writes them) are skipped: the readers compare token text without consulting is_token_quoted (listed "
+        "C02/C09 known finding), so what the document denotes depends on which blocks a route parses",
+        "non-finite floats (weights '[&W 1e400/1]', 'nan') are compared as text",
         "matrix rows are compared by taxon label (iteration order follows the namespace, which the data set route may "
         "have filled from an earlier TREES block)",
         "a document + options combination that TreeList.get(data=) refuses is outside the domain; DataSet.get and the "
@@ -260,7 +264,31 @@ class Sources(object):
 # observations
 # ---------------------------------------------------------------------------
 
+def fnorm(v):
+    """floats that are not finite (weights '[&W 1e400/1]', 'nan') as text: nan != nan would make equal observations differ"""
+    if isinstance(v, float) and (v != v or v in (float("inf"), float("-inf"))):
+        return "float:%r" % v
+    return v
+
+
+STRUCTURAL_LABEL = None
+
+
+def has_structural_label(text):
+    """A quoted token that is ONE structural character (';' ',' '(' ...; lib/docs.py writes them as taxon and internal
+    labels): the readers compare token text without asking whether it was quoted - the listed C02 / C09 known finding
+    (e.g. C09.nexus_label_semicolon: such a row label ends MATRIX early).  What such a document denotes then depends on
+    which blocks a route parses, so it is outside C13's domain until that finding is repaired."""
+    global STRUCTURAL_LABEL
+    if STRUCTURAL_LABEL is None:
+        import re
+        STRUCTURAL_LABEL = re.compile(r"""(?<![A-Za-z0-9'])'(?:[(),:;\[\]={}\\]|'')'(?![A-Za-z0-9'])""")
+    return STRUCTURAL_LABEL.search(text) is not None
+
+
 def jsonable(v):
+    if isinstance(v, float):
+        return fnorm(v)
     if v is None or isinstance(v, (str, int, float, bool)):
         return v
     if isinstance(v, (list, tuple)):
@@ -288,10 +316,10 @@ def observe_tree(tree):
         e = nd._edge
         tx = rt.taxon[i]
         L = e.length
-        nodes.append([len(rt.children[i]), None if tx is None else tx.label, nd.label, L, type(L).__name__,
+        nodes.append([len(rt.children[i]), None if tx is None else tx.label, nd.label, fnorm(L), type(L).__name__,
                       list(nd.comments), anns(nd), e.label, anns(e), list(getattr(e, "comments", []))])
         taxa.append(tx)
-    head = [tree.label, tree._is_rooted, tree.weight, list(tree.comments), anns(tree)]
+    head = [tree.label, tree._is_rooted, fnorm(tree.weight), list(tree.comments), anns(tree)]
     return {"head": head, "nodes": nodes}, taxa, []
 
 
@@ -624,6 +652,9 @@ def _check(run):
     if schema != "nexml" and "]'" in text and tokenizer_glues_quote_after_comment():
         ctx.cls("skipped:comment_glued_to_quoted_token(C20)")
         return
+    if schema != "nexml" and has_structural_label(text):
+        ctx.cls("skipped:single_structural_character_label(C02/C09 known finding)")
+        return
     ctx.cls("schema:%s" % schema)
     ctx.cls("mode:%s%s" % ("shared" if plan["shared"] else "fresh", ":prepopulated" if plan.get("prior") else ""))
 
@@ -882,18 +913,18 @@ def split_rows(ta):
     ns = ta.taxon_namespace
     rows = []
     for splits, lens in zip(ta._tree_split_bitmasks, ta._tree_edge_lengths):
-        rows.append([[sorted(t.label for t in ns.bitmask_taxa_list(s)), L] for s, L in zip(splits, lens)])
+        rows.append([[sorted(t.label for t in ns.bitmask_taxa_list(s)), fnorm(L)] for s, L in zip(splits, lens)])
     leafsets = [sorted(t.label for t in ns.bitmask_taxa_list(b)) for b in ta._tree_leafset_bitmasks]
     sd = ta.split_distribution
 
     def by_split(d):
         return sorted([sorted(t.label for t in ns.bitmask_taxa_list(k)), jsonable(v)] for k, v in d.items())
-    return {"splits": rows, "weights": list(ta._tree_weights), "leafsets": leafsets, "rooted": ta.is_rooted_trees,
+    return {"splits": rows, "weights": [fnorm(w) for w in ta._tree_weights], "leafsets": leafsets, "rooted": ta.is_rooted_trees,
             "n": len(ta),
             # what the array summarises from: per-split counts, edge lengths and node ages over all trees
             "split_counts": by_split(sd.split_counts), "split_edge_lengths": by_split(sd.split_edge_lengths),
             "split_node_ages": by_split(sd.split_node_ages), "total_trees_counted": sd.total_trees_counted,
-            "sum_of_tree_weights": sd.sum_of_tree_weights,
+            "sum_of_tree_weights": fnorm(sd.sum_of_tree_weights),
             "rooting_types": sorted(map(repr, sd.tree_rooting_types_counted))}
 
 
@@ -956,14 +987,17 @@ def check_tree_array(run, n, sizes):
                   lambda: "%s; %s" % (first_diff(got, want), run.where()))
         # independent of add_tree: with use_tree_weights (the default) the array holds the weights the list route
         # delivers, a tree without weight counting 1.0
-        want_w = [1.0 if (o["head"][2] is None or not cfg["use_tree_weights"]) else float(o["head"][2])
+        want_w = [1.0 if (o["head"][2] is None or not cfg["use_tree_weights"]) else o["head"][2]
                   for o in run.base.trees[offset:]]
         total = ta.split_distribution.sum_of_tree_weights
-        ctx.check(list(ta._tree_weights) == want_w and abs(total - sum(want_w)) <= 1e-9 * (1.0 + abs(sum(want_w))),
+        finite = all(isinstance(w, (int, float)) for w in want_w)       # non-finite weights are held as text (fnorm)
+        want_w = [float(w) if isinstance(w, (int, float)) else w for w in want_w]
+        ctx.check([fnorm(w) for w in ta._tree_weights] == want_w and
+                  (not finite or abs(total - sum(want_w)) <= 1e-9 * (1.0 + abs(sum(want_w)))),
                   "tree_array_holds_the_delivered_tree_weights", "C13.weights:%s" % route,
                   lambda: "%s stored weights %r (sum %r), TreeList.get delivered %r; %s" % (
                       route, list(ta._tree_weights), total, [o["head"][2] for o in run.base.trees[offset:]], run.where()))
-        if any(w == 0.0 for w in want_w):
+        if any(w == 0.0 for w in want_w if isinstance(w, float)):
             ctx.cls("treearray:zero_weight_tree")
         if r is not None:
             ctx.check(r == n - offset, "read_returns_number_of_trees", "C13.counts:%s" % route,
@@ -1001,7 +1035,7 @@ def multi_cases(draw, large=False):
                           "use_tree_weights": draw(st.sampled_from([True, True, False])),
                           "check_ultrametricity": draw(st.booleans())},
             "rooting": draw(st.sampled_from(["force-rooted", "force-unrooted", "force-rooted", None]))}
-    family = draw(st.sampled_from(["nexml", "nexml", "newick", "newick", "nexus"]))
+    family = draw(st.sampled_from(["nexml", "nexml", "newick", "newick", "nexus", "nexus"]))
     if family == "nexml":
         docs_ = draw(c13_docs.nexml_families(max_files=3))
         opts = draw(nexml_options())
@@ -1015,15 +1049,21 @@ def multi_cases(draw, large=False):
                             c13_docs.numeric_newick_docs(max_taxa=5, max_trees=3))
         else:
             gen = None
-            pool = draw(docs.label_sets(5))        # the sources draw their taxa from one pool
+            pool = draw(c13_docs.label_sets(5))        # the sources draw their taxa from one pool
+            # which sources have a TAXA block: every mixture, or drawn per source (None)
+            taxa_pattern = draw(st.sampled_from([[True, False, False], [True, False, True], [False, True, False],
+                                                 [True, True, True], [False, False, False], [None, None, None]]))
         docs_ = []
         for _ in range(nd):
             if gen is None:
                 # NEXUS sources with and without TAXA blocks, mixed inside one call
                 sub = draw(st.lists(st.sampled_from(pool), min_size=1, max_size=4, unique=True))
                 d = draw(st.one_of(c13_docs.ultrametric_newick_docs(max_trees=3, nexus=True),
-                                   c13_docs.rich_nexus_docs(max_trees=2, max_blocks=2, max_chars=4, labels=sub),
-                                   c13_docs.rich_nexus_docs(max_trees=2, max_blocks=2, max_chars=4, labels=sub)))
+                                   c13_docs.rich_nexus_docs(max_trees=2, max_blocks=2, max_chars=4, labels=sub,
+                                                            taxa=taxa_pattern[len(docs_)]),
+                                   # TRANSLATE tables: where a source names its taxa when it has no TAXA block
+                                   c13_docs.rich_nexus_docs(max_trees=2, max_blocks=2, max_chars=4, labels=sub,
+                                                            taxa=taxa_pattern[len(docs_)], translate=True)))
             else:
                 d = draw(gen)
             fit_options(d, opts)
@@ -1084,8 +1124,14 @@ def check_multi(ctx, case):
     try:
         with warnings.catch_warnings():
             warnings.simplefilter("ignore")
+            if schema != "nexml" and any(has_structural_label(d["text"]) for d in docs_):
+                ctx.cls("multi:skipped:single_structural_character_label(C02/C09 known finding)")
+                return
             ctx.cls("multi:%s:%dsources%s" % (schema, len(docs_), ":same_source_twice" if plan["repeat"] else ""))
             ctx.cls("multi:kinds:%s" % "+".join(kinds))
+            if schema == "nexus":
+                has = ["BEGIN TAXA" in " ".join(d["text"].upper().split()) for d in docs_]
+                ctx.cls("multi:nexus:taxa_blocks:%s" % "".join("T" if h else "-" for h in has))
             res, err = attempt(read_all)
             if err is not None:
                 ctx.cls("multi:reference_rejects:%s" % type(err).__name__)
